@@ -20,6 +20,7 @@ mod ossl;
 mod pathdrv;
 mod pemx;
 mod secretdrv;
+mod sessiondrv;
 mod strdrv;
 mod project;
 mod puritydrv;
@@ -66,6 +67,7 @@ fn main() {
 		"panic-matrix" => panicdrv::run_matrix(&args[2], &args[3]),
 		"panic-parsers" => panicdrv::run_parsers(&args[2], &args[3]),
 		"secrets" => secretdrv::run(&args[2], &args[3]),
+		"sessions" => sessiondrv::run_sessions(&args[2], &args[3]),
 		"dn-cases" => dndrv::run_cases(&args[2], &args[3]),
 		"dn-random" => dndrv::run_random(&args[2], args[3].parse().unwrap(), args[4].parse().unwrap()),
 		other => {
